@@ -40,10 +40,11 @@ def text(s):
 def scenarios(W):
     S = []
 
-    def add(name, plan, ending, close_args=(None, None), run_kwargs=None, hooks=None, raising=None, callbacks=None, app_kwargs=None, url=None):
+    def add(name, plan, ending, close_args=(None, None), run_kwargs=None, hooks=None, raising=None, callbacks=None, app_kwargs=None, url=None,
+            process_reconnect=None):
         trig = "close-from-callback" if name.startswith("close-") else "keyboard-interrupt" if name.startswith("keyboard") else "scripted"
         S.append(dict(name=name, trigger=trig, plan=plan, ending=ending, close_args=close_args, run_kwargs=run_kwargs or {}, hooks=hooks or {},
-                      raising=raising or {}, callbacks=callbacks, app_kwargs=app_kwargs or {}, url=url))
+                      raising=raising or {}, callbacks=callbacks, app_kwargs=app_kwargs or {}, url=url, process_reconnect=process_reconnect))
 
     ok = lambda *script, **kw: dict(outcome="ok", script=list(script), **kw)  # noqa
     msg = (1.0, "frames", text("hello"))
@@ -107,6 +108,28 @@ def scenarios(W):
             add(f"reconnect-keepalive-{how}-then-server-close-interval{interval}",
                 [ok(msg, (2.0, how), pong=0.1), ok(msg, (2.5, "close", b"\x03\xe8bye"), pong=0.1)], "error", (1000, "bye"),
                 run_kwargs=dict(ping_interval=interval, reconnect=1))
+    # --- a process-wide reconnect interval (websocket.setReconnect) is in force, but this run asks for none (reconnect=0): it ends
+    #     like any run without reconnection ---
+    add("process-reconnect-set-run-asks-for-none-eof", [ok(msg, (2.0, "eof"))], "error", run_kwargs=dict(reconnect=0), process_reconnect=5)
+    add("process-reconnect-set-run-asks-for-none-reset", [ok(msg, (2.0, "reset"))], "error", run_kwargs=dict(reconnect=0), process_reconnect=1)
+    add("process-reconnect-set-run-asks-for-none-refused", [dict(outcome="refused")], "error", run_kwargs=dict(reconnect=0), process_reconnect=2)
+    add("process-reconnect-set-run-asks-for-none-illegal-frame", [ok(msg, (2.0, "frames", bytes([0xC1, 0x01, 0x41])))], "error", run_kwargs=dict(reconnect=0), process_reconnect=5)
+    add("process-reconnect-set-run-asks-for-none-server-close", [ok(msg, (2.0, "close", b"\x03\xe9"))], "close-frame", (1001, ""), run_kwargs=dict(reconnect=0), process_reconnect=5)
+    # --- a KeyboardInterrupt that strikes inside the library's own closing handshake during teardown (here: raised by the key source
+    #     while the close frame is being masked) does not cost the run its on_close / its transport release ---
+    def _ki_key_source():
+        st = {"armed": False}
+
+        def key(n):
+            if st["armed"]:
+                st["armed"] = False
+                raise KeyboardInterrupt()
+            return b"\x01\x02\x03\x04"[:n]
+        return st, key
+    for nm, script in (("illegal-frame", (2.0, "frames", bytes([0xC1, 0x01, 0x41]))), ("invalid-utf8", (2.0, "frames", R.encode(R.TEXT, b"\xff\xfe")))):
+        st_, key_ = _ki_key_source()
+        add(f"keyboard-interrupt-in-key-source-during-teardown-{nm}", [ok(msg, script)], "error", app_kwargs=dict(get_mask_key=key_),
+            hooks={"on_error": (lambda run, app, e, st_=st_: st_.__setitem__("armed", True))})
     # --- user callback raising (not an ending by itself) then server close ---
     boom = lambda: RuntimeError("boom")  # noqa
     for cb in ("on_open", "on_message", "on_data", "on_ping"):
@@ -222,6 +245,8 @@ def run_scenario(res, W, sc, strategy, tag, with_second=True, dispatcher_kind=No
     def scen():
         S = sched.CURRENT
         H.reset_process_state()
+        if sc.get("process_reconnect"):
+            H.ws().setReconnect(sc["process_reconnect"])
         plan = list(sc["plan"]) + [second_run_plan(bool(sc["run_kwargs"].get("ping_interval")) and bool(sc["run_kwargs"].get("ping_timeout")))]
         hooks = dict(sc["hooks"])
         closer_actor = []
